@@ -96,6 +96,6 @@ PROFILE = machine.Profile(
                    (3, 'reshaper'), (3, 'delete_allocations'),
                    (3, 'put_allocations_clear'), (1, 'delete_inventory')],
     oracles=[oracles.c12_oracle, null_write_probe], nontrivial=nontrivial,
-    steps=40, boundaries=(8, 12, 13, 28, 38), defect_rate=4, init=init)
+    steps=40, boundaries=(8, 12, 13, 28, 38), defect_rate=4, init=init, rich_start=5)
 
 C.standard_module(globals(), 'C12', PROFILE, 25, 400)
